@@ -52,10 +52,15 @@ def matter (j : Json) : Except String Json := do
   let posQ : Option (Q Rat) → Bool := fun q => match q with
     | none => true
     | some q => decide (0 < q.v) && decide (0 < q.f)
-  if cs.isEmpty || !positive cs || !(decide (0 < da)) || !(posQ rho && posQ n && posQ vol)
-      || (rho.isNone && n.isNone) then
+  if cs.isEmpty || !positive cs || !(decide (0 < da)) || !(posQ rho && posQ n && posQ vol) then
     return Json.mkObj [("model", jstr "out-of-domain")]
-  let h := if via == "dict" then dictHistory mode cs else stringHistory mode cs
+  -- explicit history of component lists (objects modified with add() after construction), else
+  -- the constructor's own history
+  let h ← match j.getObjVal? "hist" with
+    | .ok hj => do
+        let lists ← (← getList hj).mapM getComps
+        pure (lists.map (compositeMassQ mode) ++ [compositeMassQ mode cs])
+    | .error _ => pure (if via == "dict" then dictHistory mode cs else stringHistory mode cs)
   let model : Json :=
     match runHistory da h (MState.init rho n vol) with
     | none => jstr "err"
